@@ -4,6 +4,8 @@ import (
 	"bufio"
 	"context"
 	"fmt"
+	"math"
+	"strconv"
 	"time"
 
 	"github.com/valyala/fastjson"
@@ -161,7 +163,11 @@ func getOctoSQLValue(t octosql.Type, value *fastjson.Value) (out octosql.Value, 
 	switch t.TypeID {
 	case octosql.TypeIDFloat:
 		if value.Type() == fastjson.TypeNumber {
-			v, _ := value.Float64()
+			// fastjson's own float parser is only approximately rounded for numbers with an exponent.
+			v, err := strconv.ParseFloat(string(value.MarshalTo(nil)), 64)
+			if err != nil && !math.IsInf(v, 0) {
+				return octosql.ZeroValue, false
+			}
 			return octosql.NewFloat(v), true
 		}
 	case octosql.TypeIDBoolean:
